@@ -708,6 +708,17 @@ where
                 &mut notify_change,
             )?;
 
+            if let Some(_fab_idx) = removed_fabric {
+                // The rolled-back fabric's CASE resumption records go with it
+                #[cfg(feature = "case-resumption")]
+                {
+                    state.resumption.remove_for_fabric(_fab_idx);
+                    self.matter.transport().notify_resumption_dirty();
+                }
+
+                self.matter.transport().notify_session_removed();
+            }
+
             // Close the commissioning window on timeout
             state
                 .pase
